@@ -114,7 +114,7 @@ theorem ofNat32_add_inj' (t : BitVec 32) {a b : Nat} (ha : a < 2^31) (hb : b < 2
   bv_omega
 
 /-- ✱ a DATA chunk of the universe -/
-theorem PS.data {U : UnivS} {S : Reasm.Sender} {K s R G c A P D} (h : PS U S K s R G c A P D) (hS : S ∈ U.senders)
+theorem PS.dataStep {U : UnivS} {S : Reasm.Sender} {K s R G c A P D} (h : PS U S K s R G c A P D) (hS : S ∈ U.senders)
     (hlen : S.msgs.length < 2^15)
     (S' : Reasm.Sender) (hS' : S' ∈ U.senders) (k i : Nat) (imm : Bool) (hk : k < S'.msgs.length) (hi : i < S'.nf k)
     (hinj : ∀ k0 i0, k0 < S.msgs.length → i0 < S.nf k0 → (S.dataFrag k0 i0).tsn = (S'.dataFrag k i).tsn → S' = S ∧ k = k0 ∧ i = i0) :
@@ -249,7 +249,7 @@ theorem skips_fold {S : Reasm.Sender} {K : Nat → Bool} (hS : S.WF) (hlen : S.m
       (Reasm.step_noEmpty q (.fwdO (BitVec.ofNat 16 L)) hn) (by rw [Reasm.fwdO_maxEntries]; exact hm)
 
 /-- ✱ a FORWARD-TSN -/
-theorem PS.fwd {U : UnivS} {S : Reasm.Sender} {K s R G c A P D} (h : PS U S K s R G c A P D) (hS : S ∈ U.senders)
+theorem PS.fwdStep {U : UnivS} {S : Reasm.Sender} {K s R G c A P D} (h : PS U S K s R G c A P D) (hS : S ∈ U.senders)
     (hlen : S.msgs.length < 2^15) (nc : TSN) (es : List (BitVec 16 × BitVec 16)) (n : Nat) (hn : n < U.N)
     (hnc : nc = U.t + BitVec.ofNat 32 n)
     (hent : chunkTrace s (.fwd nc es) = [.fwd nc] → EntOk S K G es) :
